@@ -82,6 +82,14 @@ def module_descs(draw, with_apps=True, max_depth=3, sym_pool=('a', 'b', 'c', 'A'
                             val = gens.draw_admissible_concrete(draw, merged, cfg, 1)
                         delta.append([k, gens.sugared_to_json(val)])
                     c['delta'] = delta
+                    # domain: capture-free instantiations with a documented-well-formed result (a capturing one is refused by
+                    # the checker by design; the toolkit has no capture check - outside C02 as for 'quant')
+                    try:
+                        res = R.instantiate(gens.expand_sugared(app.conclusion(), defs), {k: gens.expand_sugared(gens.sugared_from_json(v, notations.registry()[1]), defs) for k, v in delta}, mode='check')
+                        if not R.well_formed(res):
+                            continue
+                    except R.Capture:
+                        continue
                 claims.append(c)
             elif kind == 'funcsubst':
                 # the Substitution library's functional_subst rule (premises: the two schematic hypotheses as axioms of the
